@@ -10,6 +10,9 @@ from sim import dznbuild  # noqa: E402
 
 
 def main():
+    proto = os.fdopen(os.dup(1), 'w')
+    os.dup2(2, 1)
+    sys.stdout = sys.stderr
     req = json.load(sys.stdin)
     dznbuild.ensure_repo_dznpy()
     if req['world'] == 'C16':
@@ -18,7 +21,8 @@ def main():
     else:
         from sim import checkC12
         v = checkC12.run_histories(req['universe'], req['refs'], req['histories'])
-    json.dump({'violation': v}, sys.stdout)
+    json.dump({'violation': v}, proto)
+    proto.flush()
 
 
 if __name__ == '__main__':
